@@ -69,7 +69,7 @@ def _install_nn_stand_in():
     mod.natural_interpolation = natural_interpolation
     sys.modules[name] = mod
 _install_nn_stand_in()
-from harness.common import cz, cnat, cbool, clist, ctup, import_aa
+from harness.common import cz, cnat, cbool, clist, ctup, copt, import_aa
 
 ID = "C11"
 GEN = []
@@ -258,8 +258,8 @@ def poison(v, extra=()):
     freed.  A buffer obtained with np.empty / np.ndarray(shape) whose cells are not all assigned then shows the pattern; two calls
     with equal inputs are poisoned with DIFFERENT patterns."""
     junk = []
-    # numpy keeps 7 freed blocks per 16-byte size class below 1 KiB; above, the allocator serves a request from the smallest free chunk
-    for n, rep in itertools.chain(((n, 7) for n in range(16, 1024, 16)), ((n, 2) for n in range(1024, 8193, 256)), ((n, 4) for n in extra)):
+    # numpy keeps 7 freed blocks per size (in bytes) below 1 KiB; above, the allocator serves a request from the smallest free chunk
+    for n, rep in itertools.chain(((n, 7) for n in range(8, 1024, 8)), ((n, 2) for n in range(1024, 8193, 256)), ((n, 4) for n in extra)):
         n = int(n)
         if n <= 0 or n > 2 ** 22: continue
         for _ in range(rep):
@@ -1423,15 +1423,25 @@ def run_remask(inp):
                         if not (same_bits(x.native, np.where(mk, 0.0, full)) and same_bits(x.slim, full[~mk]) and np.array_equal(np.array(x.mask), mk)):
                             bad.append(f"{label} ({when}): `{nm_}` is not the caller's array under the dataset's own mask")
             except Exception as e: bad.append(f"{label} ({when}): reading data / noise_map raised {type(e).__name__}")     # noqa
+    # PART F (Model/C11r.v): chains of apply_mask / looks only, on a dataset whose own mask is all false -> KRemask, evaluated in Coq
+    modelled = all(st["how"] in ("mask", "read") for st in inp["steps"]) and cfg.get("pad_for_convolver") is not True
+    cidx = {0: 0}; cops = []; couts = []       # node index -> index among the datasets that exist (a derivation that raises makes none)
+    def cview(ds):
+        c = getattr(ds, "noise_covariance_matrix", None)
+        return "(ROk " + carr(enc_arr(ds.data.slim)) + " " + copt(c, lambda m: clist([carr(enc_arr(r)) for r in np.asarray(m)])) + ")"
     for st in inp["steps"]:
-        if len(bad) > 6: break
+        if len(bad) > 6: modelled = False; break
         if st["how"] == "read":
             if nodes[st["d"]] is None: continue
             ds = nodes[st["d"]][0]
             for q in st["q"]:
                 try: getattr(ds, q)
                 except Exception: pass      # noqa
+            if modelled: cops.append(f"(RPeek {cnat(cidx[st['d']])})"); couts.append(cview(ds))
             continue
+        if modelled and nodes[st["d"]] is not None:
+            cops.append(f"(RMask {cnat(cidx[st['d']])} {cmask(np.array(st['mask'], dtype=bool).ravel())})")
+            couts.append(None)       # filled below: what the derived dataset reports, or RRaise
         if nodes[st["d"]] is None: nodes.append(None); continue       # derived from a dataset whose derivation raised
         ds, chain, unm, allfalse, label = nodes[st["d"]]
         step = {k: v for k, v in st.items() if k != "d"}
@@ -1453,7 +1463,9 @@ def run_remask(inp):
                     if type(e2) is not type(e): bad.append(f"{how} on {label} raised {type(e).__name__}, the history-free twin {type(e2).__name__}")
             tally(f"remask: {how} raises {type(e).__name__}" + (" (the source has no `unmasked`)" if meta[0] is None else " (so does the twin)" if len(bad) == nb else " (the twin does not)"))
             if os.environ.get("C11_DEBUG"): print("RAISE", how, label, repr(e)[:300], {k: v for k, v in cfg.items() if k not in ("data", "noise", "cov")})
+            if modelled: couts[-1] = "RRaise"
             nodes.append(None); continue
+        if modelled: cidx[len(nodes)] = len(cidx); couts[-1] = cview(new)
         if how == "mask" and not allfalse: n_remask += 1
         if meta[0] is None: nodes.append(None); continue       # cannot happen: re-masking without `unmasked` raises
         node = (new,) + meta
@@ -1464,7 +1476,13 @@ def run_remask(inp):
     bad += w.bad()
     tally("remask: re-masking of an already masked dataset", n_remask); tally("remask: datasets compared with a history-free twin", n_cmp)
     if cfg.get("cov") is not None: tally("remask: datasets with a noise covariance matrix")
-    res = {"coq": None, "out": {"nodes": len(nodes), "remask": n_remask, "bad": bad[:5]}, "py_ok": not bad, "nontrivial": n_remask > 0,
+    coq = None
+    if modelled and cops:
+        cov0 = next((o for o in owned if isinstance(o, np.ndarray) and o.ndim == 2 and o.shape == (len(cfg["data"]),) * 2), None) if cfg.get("cov") is not None else None
+        coq = (f"(KRemask {carr(enc_arr(np.array(cfg['data'], dtype=float)))} {copt(cov0, lambda m: clist([carr(enc_arr(r)) for r in m]))} "
+               f"{clist(cops)} {clist(couts)})")
+        tally("remask: KRemask cases (machine of Model/C11r.v vs value semantics, in Coq)")
+    res = {"coq": coq, "out": {"nodes": len(nodes), "remask": n_remask, "bad": bad[:5]}, "py_ok": not bad, "nontrivial": n_remask > 0,
            "kind": "remask" + (":cov" if cfg.get("cov") is not None else "") + (":again" if n_remask else "")}
     if bad: res["detail"] = "; ".join(bad[:5])
     return res
@@ -1503,14 +1521,15 @@ def gen_remask(rng, k):
         cfg["psf"]["v"] = [rng.randint(0, 3) for _ in range(cfg["psf"]["shape"][0] * cfg["psf"]["shape"][1] - 1)] + [2]
     if rng.random() < 0.7: cfg["os"] = [rng.choice([0, 1, 2]), rng.choice([0, 0, 2]), rng.choice([0, 1, 2])]
     if rng.random() < 0.4: cfg["use_normalized_psf"] = rng.choice([False, False, True])
-    if rng.random() < 0.25: cfg["pad_for_convolver"] = rng.random() < 0.3     # True pads (and masks) unmasked data: apply_mask then has no `unmasked`
+    pure = k % 2 == 0        # apply_mask / looks only: the chains Model/C11r.v speaks about
+    if rng.random() < 0.25: cfg["pad_for_convolver"] = (rng.random() < 0.3) and not pure     # True pads (and masks) unmasked data: apply_mask then has no `unmasked`
     if rng.random() < 0.3: cfg["check_noise_map"] = rng.choice([True, False])
     trim_ok = border >= 2 and cfg["psf"] is not None
     steps = []; nodes = [{"allfalse": True, "masked": False, "mask": None, "dead": False}]   # dead: `unmasked` lost (over-sampling / noise scaling)
-    if rng.random() < 0.2:
+    if rng.random() < 0.2 and not pure:
         steps.append({"how": "noise_scaling", "d": 0, "mask": rm_mask(rng, H, W, max(border, 1), "random"), **({"snr": 2.0} if rng.random() < 0.5 else {})})
         nodes.append({"allfalse": True, "masked": False, "mask": None, "dead": False})
-    if rng.random() < 0.3:
+    if rng.random() < 0.3 and not pure:
         steps.append({"how": "over_sampling", "d": len(nodes) - 1, "os": rng.choice([None, [2, 0, 0], [0, 0, 2], [1, 2, 1]])})
         nodes.append({"allfalse": True, "masked": False, "mask": None, "dead": False})
     n_mask = 0
@@ -1521,7 +1540,7 @@ def gen_remask(rng, k):
         r = rng.random()
         if r < 0.25:
             steps.append({"how": "read", "d": rng.randrange(len(nodes)), "q": rng.sample(RM_READS, rng.randint(1, 4))})
-        elif r < 0.8 or n_mask < 2:
+        elif r < 0.8 or n_mask < 2 or pure:
             if n.get("trimmed") and n["allfalse"]: continue
             style = rng.choice(["larger", "smaller", "disjoint", "equal", "random"])
             m = rm_mask(rng, H, W, border, style, n["mask"])
@@ -2253,7 +2272,10 @@ def util_args(inp):
     if f == "mapped_recon": return {"mapping_matrix": mk(B), "reconstruction": mk(sv)}
     if f == "data_vector": return {"blurred_mapping_matrix": mk(B), "image": mk(inp["image"]), "noise_map": mk(inp["noise"])}
     nb = np.array([[(i - 1) % n, (i + 1) % n] for i in range(n)], dtype=np.int64, order=inp["order"])      # a ring of pixels
-    if f == "reg_constant": return {"neighbors": nb, "neighbors_sizes": np.full(n, 2, dtype=np.int64)}
+    if f in ("reg_constant", "reg_constant_zeroth"): return {"neighbors": nb, "neighbors_sizes": np.full(n, 2, dtype=np.int64)}
+    if f == "reg_zeroth": return {}
+    if f == "reg_bz_weights": return {"pixel_signals": mk(np.abs(sv) % 3)}
+    if f == "reg_bz_matrix": return {"regularization_weights": mk(np.abs(sv) + 1)}
     if f == "reg_weighted": return {"regularization_weights": mk(np.abs(sv) + 1), "neighbors": nb, "neighbors_sizes": np.full(n, 2, dtype=np.int64)}
     if f == "reg_weights": return {"pixel_signals": mk(np.abs(sv) % 2)}
     raise ValueError(f)
@@ -2264,6 +2286,7 @@ def util_call(inp, a, settings):
     from autoarray.inversion.regularization import regularization_util
     from autoarray.util import fnnls
     f = inp["fn"]
+    poison_next()
     try:
         if f == "positive_only":
             kw = {} if settings is None else {"settings": settings}       # omitted: the signature's default SettingsInversion()
@@ -2283,6 +2306,10 @@ def util_call(inp, a, settings):
                                                                                    noise_map=a["noise_map"])
         elif f == "reg_constant": r = regularization_util.constant_regularization_matrix_from(coefficient=2.0, **a)
         elif f == "reg_weighted": r = regularization_util.weighted_regularization_matrix_from(**a)
+        elif f == "reg_zeroth": r = regularization_util.zeroth_regularization_matrix_from(coefficient=1.5, pixels=inp["n"])
+        elif f == "reg_constant_zeroth": r = regularization_util.constant_zeroth_regularization_matrix_from(coefficient=2.0, coefficient_zeroth=0.5, **a)
+        elif f == "reg_bz_weights": r = regularization_util.brightness_zeroth_regularization_weights_from(coefficient=2.0, **a)
+        elif f == "reg_bz_matrix": r = regularization_util.brightness_zeroth_regularization_matrix_from(**a)
         elif f == "reg_weights": r = regularization_util.adaptive_regularization_weights_from(inner_coefficient=2.0, outer_coefficient=0.5, **a)
         else: raise ValueError(f)
         return np.array(r, dtype=float)
@@ -2323,7 +2350,7 @@ def run_util(inp):
     if bad: res["detail"] = "; ".join(bad[:4])
     return res
 UTIL_FNS = ["positive_only", "positive_only", "positive_only", "fnnls", "fnnls", "positive_negative", "mirrored", "curvature", "mapped_recon",
-            "data_vector", "reg_constant", "reg_weighted", "reg_weights"]
+            "data_vector", "reg_constant", "reg_weighted", "reg_weights", "reg_zeroth", "reg_constant_zeroth", "reg_bz_weights", "reg_bz_matrix"]
 def gen_util(rng, k):
     f = UTIL_FNS[k % len(UTIL_FNS)]
     n = rng.randint(1, 5); m = rng.randint(1, 6)
@@ -2493,7 +2520,7 @@ def gen_share(rng):
 
 def run_case(inp):
     r = run_case0(inp)
-    if r.get("coq") and not r["coq"].startswith(("(KGraph", "(KShare")): r["coq"] = "(KA " + r["coq"] + ")"
+    if r.get("coq") and not r["coq"].startswith(("(KGraph", "(KShare", "(KRemask")): r["coq"] = "(KA " + r["coq"] + ")"
     return r
 def run_case0(inp):
     op = inp["op"]
@@ -2884,7 +2911,7 @@ def gen_inputs(tier, rng):
     # structure queries called three times on equal inputs with the heap dirtied in between; windows leaving the frame vs a reference
     for k in range(1500 if big else 120): yield gen_determ(rng, k)
     # util functions (solvers first) called directly with caller-owned arrays: C / Fortran order, float64 / int64 / float32
-    for k in range(520 if big else 52): yield gen_util(rng, k)
+    for k in range(680 if big else 68): yield gen_util(rng, k)
     for k in range(120 if big else 18):
         H, W = rng.randint(2, 4), rng.randint(2, 4)
         vias = ["simulator", "poisson", "gaussian", "interferometer"]
